@@ -22,6 +22,18 @@ func genC16(d *RunDesc, tier string) {
 		d.MapPolicy = simrt.MapPermuted
 	}
 
+	// Export storm (one run in 25): one caller feeds a long template through a
+	// reader that delivers a byte at a time, the others push 25-40 small reader
+	// exports each; PCT with the slow caller first, so that one of its change
+	// points parks it inside its read loop while everybody else runs to
+	// completion.  Bounded resources handed out in rotation (buffer rings,
+	// limiters, free lists) go wrong only when more callers pass through than
+	// there are slots while one holder is still busy.
+	if stm := newRng(simrt.Mix(d.Seed, 6)); stm.chance(1, 25) {
+		genStorm(d, stm)
+		return
+	}
+
 	// sharing pattern
 	pattern := wl.intn(4) // 0 all private (no shared world at all: cold start), 1 one hot shared object, 2/3 mixed
 	// shared world
@@ -287,6 +299,53 @@ func genC16(d *RunDesc, tier string) {
 	}
 }
 
+func genStorm(d *RunDesc, r *rng) {
+	d.Storm = true
+	k := r.intn(3)
+	v, _ := genValidVector(r, k)
+	d.World = []ObjSpec{{Kind: k, Vec: v}}
+	d.WorldReps = []RepSpec{{Obj: 0, Lang: r.intn(len(langs))}, {Obj: 0, Lang: r.intn(len(langs))}}
+	valid := func(lvl int) string {
+		t, class := "", ""
+		for tries := 0; class != "valid" && tries < 6; tries++ {
+			t, class, _ = genTemplate(r, lvl)
+		}
+		return t
+	}
+	long := valid(r.intn(k + 1))
+	if p := padTemplate(r, long); len(p) <= 4200 {
+		long = p
+	}
+	slow := Fault{ErrAt: -1, Chunks: []int{1}}
+	d.Tasks = append(d.Tasks, []Op{{K: "exp", Rep: &Ref{Shared: true, I: 0}, Tmpl: long, Via: "rd", Fault: &slow}})
+	nT := r.between(2, 3)
+	for t := 0; t < nT; t++ {
+		var ops []Op
+		small := []string{valid(r.intn(k + 1)), valid(r.intn(k + 1)), "{{.Vector}}"}
+		for n := r.between(25, 40); n > 0; n-- {
+			f := Fault{ErrAt: -1}
+			if r.chance(1, 3) {
+				f.Chunks = []int{r.between(1, 64)}
+			}
+			ops = append(ops, Op{K: "exp", Rep: &Ref{Shared: true, I: r.intn(2)}, Tmpl: pick(r, small), Via: "rd", Fault: &f})
+		}
+		d.Tasks = append(d.Tasks, ops)
+	}
+	prio := make([]int, nT+1)
+	for i := range prio {
+		prio[i] = i
+	}
+	d.Sched.Prio = prio
+	d.Sched.Seed = r.u64()
+	d.Sched.Policy = simrt.PolicyPCT
+	d.Sched.PCTDepth = r.between(1, 3)
+	if r.chance(1, 4) {
+		d.Sched.Policy = simrt.PolicyBernoulli
+		d.Sched.P = 0.5
+		d.Sched.OnlyIO = true
+	}
+}
+
 func buildWorld(d *RunDesc) *world {
 	w := &world{}
 	for _, o := range d.World {
@@ -362,6 +421,9 @@ func runC16(d *RunDesc, res *RunResult) {
 	res.Stats.Policy = d.Sched.Policy
 	if d.Burst {
 		res.Stats.count("sibling-bursts")
+	}
+	if d.Storm {
+		res.Stats.count("export-storms")
 	}
 
 	mk := func(w *world, results [][]string, ctxs []*taskCtx) []func() {
